@@ -145,7 +145,10 @@ TABLE = {
         "runs) the real PeriodicCallback; after every op a read-only request "
         "must be answered synchronously with its payload, no loop iteration "
         "may sleep more than 0.25 s of virtual time, and every accepted "
-        "waiting request must be answered within the model's bound."),
+        "waiting request must be answered within the model's bound; an "
+        "enumerated family (one waiting request alone on 2-4 workers that "
+        "ignore the stop signal) requires the answer within graceful_timeout "
+        "+ numprocesses x warmup_delay + 0.3 s."),
   note=SIM_NOTE + " Only time.sleep is observed as a blocking primitive; real-OS stalls are out of reach."),
  "C03": dict(
   engine="E1-simworld", category="exploration", design_ref="DESIGN.md §4 C03",
